@@ -59,7 +59,8 @@ DUR = ["2 days", "1 night", "3 weeks", "1 month", "30 minutes", "2 h", "two days
        "0 days", "120 months", "40 monate", "99999 days", "1000000 months", "3000 weeks",
        "a day", "an hour", "ein tag", "3 nächte", "14 tage", "31 days", "thirty days", "a m",
        "500000 hours", "zwei wochen", "1 übernachtung", "half a day", "for 9999 months"]
-LABELS = ["#", "#tag", "#1", "#a-b", "#_x", "##", "#tag2", "# x", "#-", "#1a", "#tag#tag"]
+LABELS = ["#", "#tag", "#1", "#a-b", "#_x", "##", "#tag2", "# x", "#-", "#1a", "#tag#tag", "#übung", "#école", "#ärzte", "#ñ1", "#.x",
+          "#a--b", "#tag,", "#Ünï-1"]
 INERT = ["xyzzy", "qwfp", "blrg", "zzz", "kkvk", "Meeting", "call", "mit", "lunch", "x", "foo-bar",
          "(", ")", "[x]", ",", ";", ".", "..", ":", "'", "\"", "\\", "%", "é", "ß", "İ", "ǅ"]
 
